@@ -47,6 +47,11 @@ def gen_mixed(rng):
     if not src_blocking and edges[0]["kind"] in ("cbelt", "slot"): edges[0] = dict(kind="buffer", cap=2, delay=0, mode="FIFO")
     if edges[0].get("fdelay", 0) >= 0.3 and rng.random() < 0.8:
         cfg["iat"] = [rng.choice([1, 2]) for _ in range(rng.randrange(1, 3))]     # a space request is always waiting when the entry slot frees
+    if edges[0]["kind"] == "cbelt" and rng.random() < 0.7:
+        cfg["iat"] = [1]                                                          # likewise for the continuous conveyor (0.125 <= every item length / speed)
+    # clock origin: a part of the factories (most of those with real-valued belt geometry) run on a clock that starts at 1e7 (simpy.Environment(initial_time=...), epoch-style
+    # time stamps): differences of instants then carry rounding errors near 1e-9, which the library's own tolerances have to absorb
+    if rng.random() < (0.6 if ("speed" in edges[0] or "fdelay" in edges[0]) else 0.15): cfg["t0"] = 10_000_000
     return cfg
 
 def gen_construct(rng):
@@ -170,9 +175,11 @@ def build_and_run(cfg):
     from factorysimpy.edges.fleet import Fleet
     from factorysimpy.edges.continuous_conveyor import ConveyorBelt as CBelt
     from factorysimpy.edges.slotted_conveyor import ConveyorBelt as SBelt
-    env = simpy.Environment()
+    t0 = float(cfg.get("t0", 0))
+    env = simpy.Environment(initial_time=t0)
     log = []
     def tt(x):
+        x = x - t0          # times are logged relative to the clock origin
         t = f2t(x)
         return t if t is not None else repr(x)       # exact float repr: reproducibility means bit-identical times
     # every item gets the length of the conveyor(s) in this line (one item length per factory)
@@ -229,7 +236,7 @@ def build_and_run(cfg):
         extra_e.connect(s2, ms[0]); nodes.append(s2); extra = (s2, extra_e)
     err = None; steps = 0; last_t = -1; same = 0
     try:
-        T = t2f(cfg["horizon"])
+        T = t0 + t2f(cfg["horizon"])
         while env._queue and env.peek() < T:
             t = env.peek()
             same = same + 1 if t == last_t else 0
@@ -340,8 +347,35 @@ def edge_flow_judges(cfg, log):
                 due = a_ + gap
                 occ = sum(1 for (t, k, _) in seq if k == "put" and t <= a_ + EPS) - sum(1 for (t, k, _) in seq if k == "get" and t < due - EPS)
                 if occ < cap and b_ > due + 1e-6:
-                    V.append(("C04", "flow-late-admission", f"edge {i} (slot, delay {gap}, capacity {cap}): an item entered at {a_}, the entry slot was free again at "
-                                     f"{due} with {occ} items on the belt and the blocking source waiting, but the next item entered only at {b_}")); break
+                    for p_ in ("C04", "C10"):
+                        V.append((p_, "flow-late-admission", f"edge {i} (slot, delay {gap}, capacity {cap}): an item entered at {a_}, the entry slot was free again at "
+                                      f"{due} with {occ} items on the belt and the blocking source waiting, but the next item entered only at {b_}"))
+                    break
+        # the same for the continuous conveyor, as long as the belt has never been held up: every item that reached the exit so far
+        # was taken at the instant it arrived (a stalled or piled-up belt may legitimately refuse an entry), so the belt has moved all
+        # the time, it is not full, and the room for the next item is there exactly item_length / speed after the previous entry
+        if kind == "cbelt" and i == 0 and cfg.get("src_blocking") and not cfg.get("second_source_into_e0") \
+                and max(t2f(x) for x in cfg["iat"]) <= gap - 1e-3 and il == c.get("ilen", 1):      # the items have the length the belt was built for
+            travel = (c["ilen"] * cap / c["speed"]) if "speed" in c else lag
+            putt = {}; gett = {}
+            for (t, k, iid) in seq:
+                if k == "put": putt.setdefault(iid, t)
+                else: gett.setdefault(iid, t)
+            puts = [(t, iid) for (t, k, iid) in seq if k == "put"]
+            for (a_, _), (b_, _) in zip(puts, puts[1:]):
+                due = a_ + gap
+                held_up = False
+                for (tp, x) in puts:
+                    if tp > a_: break
+                    arr = tp + travel
+                    if arr > due + 1e-3: continue                   # still travelling when the room appears
+                    if x not in gett or gett[x] > arr + 1e-6 or arr > due - 1e-3: held_up = True; break
+                if held_up: break
+                if b_ > due + 1e-6:
+                    for p_ in ("C04", "C10"):
+                        V.append((p_, "flow-late-admission", f"edge {i} (continuous conveyor, item length / speed {gap}, capacity {cap}, never held up so far): an item "
+                                      f"entered at {a_}, the room for the next one was there at {due} with the blocking source waiting, but the next item entered only at {b_}"))
+                    break
     return V
 
 def digest(r):
@@ -350,7 +384,22 @@ def digest(r):
 def configs(seed, n):
     rng = random.Random(seed * 9176 + 3)
     # every fifth factory is assembled by the library's own builders (constructs/)
-    return [gen_construct(rng) if i % 5 == 4 else gen_mixed(rng) for i in range(n)]
+    out = []
+    for i in range(n):
+        c = gen_construct(rng) if i % 5 == 4 else gen_mixed(rng)
+        if i % 6 == 1 and not c.get("construct"):
+            # profile "saturated real-valued conveyor on an epoch clock": blocking source faster than the belt admits, real-valued
+            # item length / speed, clock origin 1e7 - the admission instants are then decided by the library's float tolerances
+            c["edges"][0] = dict(kind=rng.choice(["cbelt", "cbelt", "slot"]), length=rng.choice([2, 3, 4, 5]), ilen=rng.choice([0.5, 0.7, 0.8, 0.3, 0.1]),
+                                 speed=rng.choice([5.76, 3.0, 0.7, 1.3, 1.0]), acc=rng.choice([0, 1]))
+            if c["edges"][0]["kind"] == "slot":
+                c["edges"][0] = dict(kind="slot", cap=rng.choice([2, 3, 5]), fdelay=rng.choice([0.1, 0.3, 0.7, 0.35]), acc=rng.choice([0, 1]))
+            else:
+                for e in c["edges"][1:]:
+                    if "ilen" in e: e["ilen"] = c["edges"][0]["ilen"]
+            c["src_blocking"] = True; c["iat"] = [rng.choice([0, 1]) or 1]; c["t0"] = 10_000_000
+        out.append(c)
+    return out
 
 def emit(seed, n):
     for cfg in configs(seed, n):
